@@ -93,6 +93,11 @@ func crRoots(s *sq.Square) *share.AxisRoots {
 
 func crApply(st *Store, op crOp, sqs crSquares) error {
 	ctx := context.Background()
+	if op.Kind == "reopen" {
+		// a restart: NewStore regenerates the empty-block files (remove + create + write) - crashable too
+		_, err := NewStore(&Parameters{RecentBlocksCacheSize: 2}, st.basepath)
+		return err
+	}
 	if op.Sq == "empty" {
 		switch op.Kind {
 		case "putq4":
@@ -513,6 +518,7 @@ func crHistories(tier string) []crHistory {
 		{"put-same-hash-other-height", []crOp{{"putq4", 7, "w4"}, {"putq4", 8, "w4"}}},
 		{"remove-empty", []crOp{{"putq4", 7, "empty"}, {"remove", 7, "empty"}}},
 		{"putq4-w16", []crOp{{"putq4", 7, "w16"}}},
+		{"reopen-with-empty-and-block", []crOp{{"putq4", 7, "empty"}, {"putq4", 8, "w2tail"}, {"reopen", 7, "empty"}}},
 	}
 	if tier == "thorough" {
 		hs = append(hs,
